@@ -4,7 +4,116 @@ import struct
 ARRAY_LENS = [0, 1, 2, 3, 4, 5, 7, 8, 16, 17, 32, 33, 64, 65]
 INT_PRIMS = {"u8": (0, 8), "i8": (1, 8), "u16": (0, 16), "i16": (1, 16), "u32": (0, 32), "i32": (1, 32),
              "u64": (0, 64), "i64": (1, 64), "u128": (0, 128), "i128": (1, 128)}
+CHRONO_PRIMS = ["weekday", "month", "fixedoffset", "tz", "dt_utc", "ndate", "ntime", "ndt", "dt_local", "dt_fixed", "dt_tz"]
 PRIMS = list(INT_PRIMS) + ["f32", "f64", "bool", "unit", "char", "str", "dstr", "dur", "bytes", "uuid", "bigint"]
+MIN_YEAR, MAX_YEAR = -262143, 262142
+MIN_TS, MAX_TS = -8334601228800, 8210266876799
+_TZ = []
+
+
+def tz_names():
+    """the zone names of coq/TzNames.v (c01 checks that list against the linked chrono-tz on every run)"""
+    if not _TZ:
+        import os, re
+        path = os.path.join(os.path.dirname(os.path.dirname(os.path.abspath(__file__))), "coq", "TzNames.v")
+        for m in re.finditer(r"^  \[([0-9; ]+)\]", open(path).read(), re.M):
+            _TZ.append(bytes(int(x) for x in m.group(1).split(";")).decode())
+    return _TZ
+
+
+def is_leap(y):
+    return (y % 4 == 0 and y % 100 != 0) or y % 400 == 0
+
+
+def days_in_month(y, m):
+    return [31, 29 if is_leap(y) else 28, 31, 30, 31, 30, 31, 31, 30, 31, 30, 31][m - 1]
+
+
+def days_from_civil(y, m, d):
+    y -= m <= 2
+    era = y // 400
+    yoe = y - era * 400
+    doy = (153 * (m + (-3 if m > 2 else 9)) + 2) // 5 + d - 1
+    doe = yoe * 365 + yoe // 4 - yoe // 100 + doy
+    return era * 146097 + doe - 719468
+
+
+def gen_ymd(rng):
+    c = rng.random()
+    if c < 0.25:
+        y = rng.choice([MIN_YEAR, MAX_YEAR, MIN_YEAR + 1, MAX_YEAR - 1, -1, 0, 1, 1970, 1969, 2000, 1900, 2100, 2024, 63, 64,
+                        127, 128, 16383, 16384, -64, -65])
+    elif c < 0.75:
+        y = rng.randrange(1800, 2200)
+    else:
+        y = rng.randrange(MIN_YEAR, MAX_YEAR + 1)
+    m = rng.choice([1, 2, 2, 12, rng.randrange(1, 13)])
+    dim = days_in_month(y, m)
+    d = rng.choice([1, dim, dim, rng.randrange(1, dim + 1)])
+    return y, m, d
+
+
+def gen_hmsn(rng):
+    h = rng.choice([0, 23, rng.randrange(24)])
+    mi = rng.choice([0, 59, rng.randrange(60)])
+    sec = rng.choice([0, 59, 59, rng.randrange(60)])
+    ns = rng.choice([0, 1, 127, 128, 16383, 16384, 2097151, 2097152, 268435455, 268435456, 999_999_999,
+                     rng.randrange(1_000_000_000)])
+    if sec == 59 and rng.random() < 0.3:
+        ns = rng.choice([1_000_000_000, 1_999_999_999, rng.randrange(1_000_000_000, 2_000_000_000)])   # leap second
+    return h, mi, sec, ns
+
+
+def show_ndt(ymd, hmsn):
+    return f"(0 (0 z{ymd[0]} n{ymd[1]} n{ymd[2]}) (0 n{hmsn[0]} n{hmsn[1]} n{hmsn[2]} n{hmsn[3]}))"
+
+
+def ndt_secs(ymd, hmsn):
+    return days_from_civil(*ymd) * 86400 + hmsn[0] * 3600 + hmsn[1] * 60 + hmsn[2]
+
+
+def gen_offset(rng):
+    return rng.choice([0, 1, -1, 63, 64, -64, -65, 3600, -3600, 19800, 86399, -86399, 8191, 8192, -8192, -8193,
+                       rng.randrange(-86399, 86400)])
+
+
+def gen_tz(rng):
+    n = tz_names()
+    return rng.choice(["UTC", "Europe/Budapest", "America/Argentina/ComodRivadavia", "GMT+0", "Etc/GMT-14", rng.choice(n), rng.choice(n)])
+
+
+def gen_chrono_value(rng, p):
+    if p == "weekday":
+        return "n" + str(rng.randrange(1, 8))
+    if p == "month":
+        return "n" + str(rng.randrange(1, 13))
+    if p == "fixedoffset":
+        return "z" + str(gen_offset(rng))
+    if p == "tz":
+        return "b" + gen_tz(rng).encode().hex()
+    if p == "dt_utc":
+        secs = rng.choice([MIN_TS, MAX_TS, MIN_TS + 1, MAX_TS - 1, 0, -1, 1, 59, -1 - 60 * rng.randrange(1000), 1 << 31, -(1 << 31),
+                           1 << 32, rng.randrange(MIN_TS, MAX_TS + 1), rng.randrange(0, 1 << 32)])
+        ns = rng.choice([0, 1, 999_999_999, rng.randrange(1_000_000_000)])
+        if secs % 60 == 59 and rng.random() < 0.4:
+            ns = rng.choice([1_000_000_000, 1_999_999_999])
+        return f"(0 z{secs} n{ns})"
+    if p == "ndate":
+        y, m, d = gen_ymd(rng)
+        return f"(0 z{y} n{m} n{d})"
+    if p == "ntime":
+        return "(0 n%d n%d n%d n%d)" % gen_hmsn(rng)
+    if p in ("ndt", "dt_local"):
+        return show_ndt(gen_ymd(rng), gen_hmsn(rng))
+    if p == "dt_fixed":
+        while True:
+            ymd, hmsn, off = gen_ymd(rng), gen_hmsn(rng), gen_offset(rng)
+            if MIN_TS <= ndt_secs(ymd, hmsn) - off <= MAX_TS:
+                return f"(0 {show_ndt(ymd, hmsn)} z{off})"
+    if p == "dt_tz":
+        return f"(0 {show_ndt(gen_ymd(rng), gen_hmsn(rng))} b{gen_tz(rng).encode().hex()})"
+    raise ValueError(p)
+
 SEQ_KINDS = ["vec", "ll", "hset", "bset", "arr"]
 STR_POOL = ["", "a", "z", "hello", "héllo", "€", "\U0001F600", "x" * 63, "y" * 64, "w" * 65,
             "q" * 300, "\u0000", "퟿", "", "tab\tnl\n"]
@@ -138,6 +247,8 @@ def int_boundaries(signed, bits):
 
 
 def gen_prim_value(rng, p, boundary=0.5):
+    if p in CHRONO_PRIMS:
+        return gen_chrono_value(rng, p)
     if p in INT_PRIMS:
         signed, bits = INT_PRIMS[p]
         if rng.random() < boundary:
